@@ -57,6 +57,8 @@ ASSUMPTIONS = [
     "the writer's renaming (names_mapping) is observed on the real run and handed to the model as a table (C38 proves it valid and injective); "
     "the model checks both on the table it receives",
     "timed effects at global start + 0 are outside the fragment (the writer prints them like initial values)",
+    "effects whose condition is not TRUE but simplifies to TRUE or FALSE, or whose forall variables disappear under simplification, are "
+    "outside the fragment (the writer decides `when`/`forall` on the unsimplified effect and prints the simplified one)",
     "fluent signatures and quantified variables range over user types; no metrics, no trajectory constraints other than state invariants "
     "(the ANML writer prints neither)",
 ]
@@ -234,7 +236,7 @@ TOKEN_RE = re.compile(r"\s+|//[^\n]*|(?P<dec>\d+\.\d+)|(?P<num>\d+)|(?P<word>[A-
 
 
 def tokenize(text):
-    """ANML text -> flat token list.  (id s) identifiers, (kw s) ANML keywords, (num n), (dec i f), (str s), (sym s)"""
+    """ANML text -> flat token list.  (id s) identifiers, (kw s) ANML keywords, (num n), (dec i frac digits), (str s), (sym s)"""
     out, i = [], 0
     while i < len(text):
         m = TOKEN_RE.match(text, i)
@@ -243,7 +245,7 @@ def tokenize(text):
         i = m.end()
         if m.lastgroup == "dec":
             a, b = m.group("dec").split(".")
-            out.append(["dec", str(int(a)), b])
+            out.append(["dec", str(int(a)), str(int(b)), str(len(b))])
         elif m.lastgroup == "num":
             out.append(["num", str(int(m.group("num")))])
         elif m.lastgroup == "word":
@@ -262,7 +264,7 @@ def render(tokens):
     parts = []
     for t in tokens:
         if t[0] == "dec":
-            parts.append(f"{t[1]}.{t[2]}")
+            parts.append(f"{t[1]}.{int(t[2]):0{int(t[3])}d}")
         elif t[0] == "str":
             parts.append(f'"{t[1]}"')
         elif t == ["sym", "/"]:
@@ -729,12 +731,42 @@ class Gen19:
             out["timed-goals"].append([self.interval(False), g.cond([], (), 1)])
 
 
+def all_effects(P):
+    for a in P.actions:
+        if isinstance(a, InstantaneousAction):
+            yield from a.effects
+        elif isinstance(a, DurativeAction):
+            for el in a.effects.values():
+                yield from el
+    for el in P.timed_effects.values():
+        yield from el
+
+
+def outside_fragment(P):
+    """reading decisions (ASSUMPTIONS): why the real problem P is not a case of this check, or None"""
+    simp = P.environment.simplifier.simplify
+    fvo = P.environment.free_vars_oracle
+    for e in all_effects(P):
+        c = simp(e.condition)
+        if e.is_conditional() and c.is_true():
+            return "an effect condition that is not TRUE simplifies to TRUE (printed as `when true {…}`)"
+        if e.is_conditional() and c.is_false():
+            return "an effect condition simplifies to FALSE"
+        fv = set(fvo.get_free_variables(simp(e.fluent))) | set(fvo.get_free_variables(simp(e.value))) | set(fvo.get_free_variables(c))
+        if any(v not in fv for v in e.forall):
+            return "a forall variable disappears when the effect is simplified"
+    for t in P.timed_effects:
+        if t.is_global() and t.is_from_start() and t.delay == 0:
+            return "timed effect at global start + 0"
+    return None
+
+
 def _buildable(ps):
     try:
         P, _ = build(ps)
-        return P
     except Exception:
         return None
+    return None if outside_fragment(P) else P
 
 
 def example_cases():
